@@ -1,4 +1,5 @@
 import Driver.C08
+import Driver.C07
 import Driver.C02
 import Driver.C19
 import Driver.C04
@@ -16,6 +17,7 @@ namespace Driver
 
 structure State where
   c08 : C08.St := {}
+  c07 : C07.St := {}
   c02 : C02.St := {}
   c19 : C19.St := {}
   c04 : C04.St := {}
@@ -44,6 +46,7 @@ def step (st : State) (line : String) : State × String :=
   | "c04" :: rest => let (s, o) := C04.step st.c04 rest; ({ st with c04 := s }, o)
   | "c19" :: rest => let (s, o) := C19.step st.c19 rest; ({ st with c19 := s }, o)
   | "c02" :: rest => let (s, o) := C02.step st.c02 rest; ({ st with c02 := s }, o)
+  | "c07" :: rest => let (s, o) := C07.step st.c07 rest; ({ st with c07 := s }, o)
   | ["sha", h] => (st, match Bytes.ofHex h with | some b => Bytes.toHex (Sha256.sum b) | none => "bad-op")
   | _ => (st, "bad-op")
 
